@@ -390,11 +390,12 @@ def run_impl(case):
     try:
         obs = _drive(case, None)
         obs["fix"] = FIX
+        obs["unpack_failed"] = any(r in ("S", "O") for _, r in obs["table"])
         if case["ctcp"]:
             merged = _merge(obs["events"])
             if merged != obs["events"]:
                 m = _drive(case, merged)
-                obs["unpack_failed"] = any(r in ("S", "O") for _, r in obs["table"] + m["table"])
+                obs["unpack_failed"] = obs["unpack_failed"] or any(r in ("S", "O") for _, r in m["table"])
                 obs["merged_trace"] = _strip(m["trace"])
                 obs["merged_hooks"] = [[m["pool"][t[4]] if t[4] is not None else None,
                                         m["pool"][t[5]] if t[5] is not None else None] for t in m["trace"] if t[1] == "hook"]
@@ -531,6 +532,12 @@ def oracle(case, obs):
                     add("zero-length-not-closed", f"event {n}: a zero length prefix from {e[0]} did not close that connection")
             if alive and any(ref_parse(f) is None for f in frames):
                 had_error = True
+            # every complete frame (datagram) of a well-formed client stream is extracted when it arrives
+            if alive and not had_error and e[0] == "c" and not any(t[1] == "crash" for t in here):
+                got = sum(1 for t in here if t[1] == "hook" and t[2] == "dns_request")
+                if got != len(frames):
+                    add("frames-not-extracted", f"event {n}: the client data completes {len(frames)} message(s) but {got} dns_request "
+                                                f"hook(s) fired")
         # walk the commands of this event
         for k, t in enumerate(here):
             if t[1] == "hook":
